@@ -1,6 +1,7 @@
 /- Driver stream `c16`: both secp256k1 backend wrappers over the executable curve `Ecdsa.k1`. -/
 import FuelVerif.Basic.Loop
 import FuelVerif.Model.Ecdsa
+import FuelVerif.Basic.Sha256
 namespace FuelVerif.Drv.C16
 open FuelVerif FuelVerif.Ecdsa
 
@@ -11,6 +12,10 @@ def fmtKey : Except Error Bytes → String
 def fmtUnit : Except Error Unit → String
   | .ok _ => "ok"
   | .error e => e.name
+
+def okEq : Except SignPanic Bytes → Bytes → Bool
+  | .ok s, t => s == t
+  | .error _, _ => false
 
 def fmtSig : Except SignPanic Bytes → String
   | .ok s => toHex s
@@ -39,10 +44,13 @@ def handle : List String → String
     -- `sig` = what the std backend produced; only its implied nonce is used
     match ofHex d, ofHex msg, ofHex sig with
     | some d, some msg, some sig =>
+      -- both wrappers with their own RFC 6979 nonce (SHA-256); additionally the nonce implied by the std backend's
+      -- signature must reproduce it through the explicit-nonce model (ties `secpSign d k` used in the theorems)
       let d := beNat d
       let (sig', _) := decodeSignature sig
       let k := nonceOf k1.n d (msgScalar k1.n msg) (sigR sig') (sigS sig')
-      s!"k256={fmtSig (k256Sign k1 d k msg)} secp={fmtSig (secpSign k1 d k msg)}"
+      let viaK := if okEq (secpSign k1 d k msg) sig then "" else " explicit-nonce-model-differs"
+      s!"k256={fmtSig (k256SignDet k1 Sha256.sha256 d msg)} secp={fmtSig (secpSignDet k1 Sha256.sha256 d msg)}{viaK}"
     | _, _, _ => "bad-op"
   | _ => "bad-op"
 
